@@ -536,6 +536,8 @@ class Emitter:
             if nm in self.mod.funcs or nm in self.mod.decls:
                 if nm not in getattr(self, 'funcs_emitted', ()):
                     self.addr_only.add(nm)
+                    if nm in self.mod.decls and not nm.startswith('@llvm.') and nm[1:] not in EXT_MAP and not nm.startswith('@vf_'):
+                        return '((uint8_t*)&%s)' % self.fname(nm)
                     return '((uint8_t*)&%saddr_%s)' % (self.prefix, cname(nm))
                 return '((uint8_t*)&%s)' % self.fname(nm)
             return '((uint8_t*)%s)' % self.gname(nm)
@@ -751,15 +753,21 @@ class Emitter:
         for n in funcs:
             protos.append(FnEmitter(self, mod.funcs[n]).proto() + ';')
         exts = []
-        for n in sorted(self.used_ext):
+        for n in sorted(self.used_ext | (self.addr_only & set(mod.decls))):
             if n in mod.decls and not n.startswith('@llvm.') and not n.startswith('@vf_') and n[1:] not in EXT_MAP:
                 ret, params, va, attrs = mod.decls[n]
-                exts.append('%s %s(%s);' % (self.ctype(ret), self.fname(n), ', '.join(self.ctype(p) for p in params) or 'void'))
+                ps = ', '.join('%s a%d' % (self.ctype(p), i) for i, p in enumerate(params)) or 'void'
+                rt = self.mod.resolve(ret) if not isinstance(ret, VoidT) else ret
+                body = 'VF_FAIL(5, "unmodelled external function %s (bound)");' % n[1:]
+                if not isinstance(rt, VoidT): body += ' return %s;' % self.zero_of(rt)
+                # an external function without a model: reaching it makes the query inconclusive (never silently havocked)
+                exts.append('%s %s(%s) { %s }' % (self.ctype(ret), self.fname(n), ps, body))
+        self.unmodelled = [n[1:] for n in sorted(self.used_ext) if n in mod.decls and not n.startswith('@llvm.') and not n.startswith('@vf_') and n[1:] not in EXT_MAP]
         self.mutable_globals = [n for n in gtexts if not mod.globals[n]['const'] and not mod.globals[n]['ext']]
         res = []
         res += self.struct_defs
         res += exts
-        res += ['static uint8_t %saddr_%s;' % (self.prefix, cname(n)) for n in sorted(self.addr_only)]
+        res += ['static uint8_t %saddr_%s;' % (self.prefix, cname(n)) for n in sorted(self.addr_only) if n not in mod.decls or n.startswith('@llvm.') or n[1:] in EXT_MAP]
         res += protos
         res += gl
         res.append(exc)
@@ -881,6 +889,7 @@ class FnEmitter:
             for s in ins:
                 pis.append(self.parse_instr(s))
             parsed.append((lab, pis))
+        parsed = self.rpo(parsed)
         self.ptr_peephole(parsed)
         # collect phis per block
         self.phis = {}
@@ -901,6 +910,38 @@ class FnEmitter:
         hdr = self.proto() + ' {\n'
         hdr += '\n'.join('  ' + d for d in self.decls) + '\n'
         return hdr + '\n'.join(out) + '\n}\n'
+
+    def rpo(self, parsed):
+        """Emit blocks in reverse post-order so that only genuine loop back-edges become backward gotos.
+        (CBMC identifies loops by backward gotos; a forward CFG edge that happens to point to an earlier block in the
+        IR's textual order - e.g. to a loop latch placed before some body blocks - is otherwise treated as a loop of its
+        own, with unwinding counters that never reset.)"""
+        idx = {lab: i for i, (lab, _) in enumerate(parsed)}
+        succs = {}
+        for lab, pis in parsed:
+            t = pis[-1] if pis else None
+            ss = []
+            if t is not None:
+                if t['op'] == 'br': ss = [t['dest']] if 'dest' in t else [t['a'], t['b']]
+                elif t['op'] == 'switch': ss = [t['dflt']] + [l for _, l in t['cases']]
+                elif t['op'] == 'invoke': ss = [t['normal'], t['unwind']]
+            succs[lab] = [x for x in ss if x in idx]
+        seen = set(); post = []
+        entry = parsed[0][0]
+        stack = [(entry, iter(sorted(set(succs[entry]), key=lambda l: -idx[l])))]
+        seen.add(entry)
+        while stack:
+            lab, it = stack[-1]
+            nxt = next(it, None)
+            if nxt is None:
+                post.append(lab); stack.pop()
+            elif nxt not in seen:
+                seen.add(nxt)
+                stack.append((nxt, iter(sorted(set(succs[nxt]), key=lambda l: -idx[l]))))
+        order = list(reversed(post))
+        rest = [lab for lab, _ in parsed if lab not in seen]     # unreachable blocks keep their place at the end
+        bymap = dict(parsed)
+        return [(lab, bymap[lab]) for lab in order + rest]
 
     def ptr_peephole(self, parsed):
         """i64 loads used only by inttoptr become pointer loads; ptrtoint used only by i64 stores become pointer stores.
@@ -1309,12 +1350,13 @@ class FnEmitter:
                 ls.append('if (vf_exc_pending) %s' % self.zero_ret())
         return ls
 
-NOTHROW_EXT = {'_ZNSt14overflow_errorC1EPKc', '_ZNSt12out_of_rangeC1EPKc', '_ZNSt12length_errorC1EPKc',
+NOTHROW_EXT = {'_ZNSt9exceptionD2Ev', '_ZNSt9exceptionD1Ev', '_ZNSt14overflow_errorD1Ev', '_ZNSt12out_of_rangeD1Ev', '_ZNSt13runtime_errorD2Ev', '_ZNSt11logic_errorD2Ev', '_ZNSt9bad_allocD1Ev', '_ZNSt14overflow_errorC1EPKc', '_ZNSt12out_of_rangeC1EPKc', '_ZNSt12length_errorC1EPKc',
                '_ZSt18_Rb_tree_incrementPKSt18_Rb_tree_node_base', '_ZSt18_Rb_tree_decrementPSt18_Rb_tree_node_base', '_ZSt18_Rb_tree_incrementPSt18_Rb_tree_node_base', '_ZSt18_Rb_tree_decrementPKSt18_Rb_tree_node_base', '_ZSt29_Rb_tree_insert_and_rebalancebPSt18_Rb_tree_node_baseS0_RS_', '_ZSt28_Rb_tree_rebalance_for_erasePSt18_Rb_tree_node_baseRS_',
                'malloc', 'free', 'realloc', 'memcpy', 'memmove', 'memset', 'memcmp', 'bcmp', 'strlen', '_ZdlPv', '_ZdlPvm', '_ZdaPv',
                '_ZnwmRKSt9nothrow_t', 'vf_nondet_u8', 'vf_nondet_u16', 'vf_nondet_u32', 'vf_nondet_u64', 'vf_assume', 'vf_assert',
                'vf_note', 'vf_reach', 'vf_on_write', 'vf_on_read'}
-EXT_MAP = {'_ZNSt14overflow_errorC1EPKc': 'vf_nop2', '_ZNSt12out_of_rangeC1EPKc': 'vf_nop2', '_ZNSt12length_errorC1EPKc': 'vf_nop2', '_ZNSt9bad_allocC1Ev': 'vf_nop1',
+EXT_MAP = {'_ZNSt9exceptionD2Ev': 'vf_nop1', '_ZNSt9exceptionD1Ev': 'vf_nop1', '_ZNSt14overflow_errorD1Ev': 'vf_nop1', '_ZNSt12out_of_rangeD1Ev': 'vf_nop1', '_ZNSt13runtime_errorD2Ev': 'vf_nop1', '_ZNSt11logic_errorD2Ev': 'vf_nop1', '_ZNSt9bad_allocD1Ev': 'vf_nop1',
+           '_ZNSt14overflow_errorC1EPKc': 'vf_nop2', '_ZNSt12out_of_rangeC1EPKc': 'vf_nop2', '_ZNSt12length_errorC1EPKc': 'vf_nop2', '_ZNSt9bad_allocC1Ev': 'vf_nop1',
            '_ZSt18_Rb_tree_incrementPKSt18_Rb_tree_node_base': 'vf_rb_inc', '_ZSt18_Rb_tree_decrementPSt18_Rb_tree_node_base': 'vf_rb_dec',
            '_ZSt18_Rb_tree_incrementPSt18_Rb_tree_node_base': 'vf_rb_inc', '_ZSt18_Rb_tree_decrementPKSt18_Rb_tree_node_base': 'vf_rb_dec',
            '_ZSt29_Rb_tree_insert_and_rebalancebPSt18_Rb_tree_node_baseS0_RS_': 'vf_rb_insert', '_ZSt28_Rb_tree_rebalance_for_erasePSt18_Rb_tree_node_baseRS_': 'vf_rb_erase',
@@ -1342,7 +1384,7 @@ def main():
         if not a.no_include: f.write('#include "vf_rt.h"\n')
         f.write(body)
     if a.info:
-        info = {'functions': len(em.funcs_emitted), 'externs': sorted(n[1:] for n in em.used_ext),
+        info = {'functions': len(em.funcs_emitted), 'externs': sorted(n[1:] for n in em.used_ext), 'unmodelled_externs': em.unmodelled,
                 'mutable_globals': sorted(n[1:] for n in em.mutable_globals), 'roots': {}}
         ninstr = {n: sum(len(ins) for _, ins in mod.funcs[n].blocks) for n in mod.funcs}
         for r in (roots or []):
